@@ -8,8 +8,8 @@ context; a thread runs only while it holds the baton and hands it back at every 
 strax/context.py that touches _plugin_class_registry / _fixed_plugin_cache.
 Part 2 (--os N): N trials of st.get_array(runs, targets, max_workers=4) under sys.setswitchinterval(1e-6).
 
-On the unchanged tree part 1 prints a RuntimeError / KeyError for worker 1 in all four cases; with the
-proposed repair (design_notes/C15_d7_fix.diff) every call returns the rows of the sequential calls.
+On a tree WITHOUT /repo commit d202a14 part 1 prints a RuntimeError / KeyError for worker 1 in all four cases;
+with that repair (design_notes/C15_d7_fix.diff is the same diff) every call returns the rows of the sequential calls.
 """
 import collections
 import sys
@@ -33,7 +33,7 @@ EXPLAIN = {
 
 
 def part1():
-    for name, (sc, warm, ncalls, segs, exp) in cx.WITNESSES.items():
+    for name, (sc, warm, ncalls, segs, exp) in cx.PINNED_WITNESSES.items():
         print("== %s: targets %s, %s cache; schedule (thread, statements) %s then every thread to its end"
               % (name, sc["targets"], "warm" if warm else "cold", segs))
         print("   " + EXPLAIN[name])
